@@ -100,6 +100,15 @@ func replayCluster(nodes int, hist []core.VEvent, e *core.VEvent, mut *core.Muta
 // vconcScenarios: appends racing with log compaction (and with the verifier goroutine's reads).
 func vconcScenarios(prop string) []*core.VConc {
 	var out []*core.VConc
+	if prop == "C20" {
+		for _, node := range []int{0, 1} {
+			who := []string{"leader", "follower"}[node]
+			for _, tm := range []uint64{2, 3, 4} {
+				out = append(out, &core.VConc{Name: fmt.Sprintf("counters, %s: StoreLogs(6), StoreLogs(checkpoint 7) || DeleteRange(1,%d) || verifier", who, tm), Node: node, TruncMax: tm, WithCP: true, CountersOnly: true})
+			}
+		}
+		return out
+	}
 	if prop == "C16" {
 		for _, node := range []int{0, 1} {
 			who := []string{"leader", "follower"}[node]
